@@ -7,7 +7,7 @@
 From Coq Require Import List NArith Bool.
 From FS Require Import Sx Model.Path Model.Fs Model.RootPath Model.CopyFs Model.CopyFsSpec
   Proofs.Lex Proofs.PathP Proofs.CleanP Proofs.RootPathP Proofs.RootPathWitnessP Proofs.CopyContainedP
-  Proofs.CopyWitnessP.
+  Proofs.CopyFsWitnessP.
 Import ListNotations.
 
 (* Whatever the argument (any number of "..", empty components, dots, separators), the
